@@ -70,6 +70,7 @@ def run(ctx):
     P.confirm(ctx, jit, jrecs, jbad, PREF, lambda cs: P.run_pipe(ctx, cs, race=True, shards=1))
     ctx.extra["race_detector_runs"] = len(jit)
     ctx.tick("race_runs")
+    xml_half(ctx)
     ctx.rule = ("evaluations = runs of the real scanner with a stop (Close / cancel by the scanning goroutine / cancel by another goroutine) "
                 "at a scripted or random point; distinct = distinct (configuration, script, realised schedule); non-trivial = the history contains a stop")
     ctx.assumptions = ["in-flight Scan during a concurrent cancel may return true or false (the property constrains later Scans)",
@@ -78,5 +79,44 @@ def run(ctx):
                        "jitter-mode race runs are judged by RunOK as well; a race report by the Go race detector is outcome 'race'"]
 
 
+XML_CLAUSES = {"later-scans-false", "err-precedence", "false-without-reason"}
+
+
+def xml_half(ctx):
+    """The osmxml scanner (sequential, no goroutines): XmlScan.tla model-checked over all call histories with Close / cancel
+    at every loop point; TLC-generated histories [CancelAt j] Scan^k (Close|Cancel)? (Scan|Err|Close)^<=n run on the real
+    osmxml.Scanner; the recorded histories judged by XmlScanJudge (C07 clauses) and replayed against the Model's actions."""
+    from props import c03 as X
+    q = ctx.quick()
+    X.prepare(ctx)
+    binp = X.build()
+    X.model_check(ctx, "XmlScanMC", "XmlScanMC_quick.cfg" if q else "XmlScanMC_thorough.cfg", workers=2)
+    scans = vlib.tlc_gen(ctx, "XmlScanGen", "XmlScanGen_quick.cfg" if q else "XmlScanGen_thorough.cfg", count_states=False)
+    srecs = X.exec_scan(ctx, binp, scans)
+    for r in srecs:
+        ctx.note_case({"xml": True, "toks": r["case"]["toks"], "ops": r["case"]["ops"]},
+                      nontrivial=any(o in ("Close", "Cancel") or str(o).startswith("CancelAt") for o in r["case"]["ops"]))
+
+    def scan_judge(rs):
+        bad = vlib.tlc_judge(ctx, "XmlScanJudge", "XmlScanJudge.cfg", rs, shards=max(1, min(6, len(rs) // 600)))
+        return [(i, sorted(set(why) & XML_CLAUSES), kf) for i, why, kf in bad if set(why) & XML_CLAUSES]
+    skeyed = [dict(toks=s["toks"], pieces=s["pieces"], ops=s["ops"], idfield=s["idfield"]) for s in scans]
+    vlib.judge_and_confirm(ctx, skeyed, srecs, lambda cs: X.exec_scan(ctx, binp, cs), scan_judge, replay_extra={"mode": "xmlscan"})
+    rejected, skipped = X.trace_validate(ctx, srecs, 4 if q else 8)
+    ctx.traces += len(srecs) - len(rejected) - len(skipped)
+    for i in rejected[:5]:
+        ctx.divergences += 1
+        vlib.log("DIVERGENCE property=C07 XmlScan rejects the recorded osmxml scanner run %d: ops=%s" % (i, srecs[i]["case"]["ops"]))
+    ctx.extra["xml_scanner_histories"] = len(srecs)
+    ctx.tick("xml_scanner")
+
+
 def replay(ctx, rp):
+    if rp.get("mode") == "xmlscan":
+        from props import c03 as X
+        X.prepare(ctx)
+        recs = X.exec_scan(ctx, X.build(), [rp["case"]])
+        bad = [b for b in vlib.tlc_judge(ctx, "XmlScanJudge", "XmlScanJudge.cfg", recs, shards=1) if set(b[1]) & XML_CLAUSES]
+        print("VIOLATION property=C07 replay=(given)  # %s" % bad[0][1] if bad else "replay: case passes")
+        return 1 if bad else 0
     return P.replay_one(ctx, rp, PREF)
